@@ -21,7 +21,7 @@ harness(void)
 {
         VERIF_INPUTS();
         VASSUME(I.z.state <= ZSTATE_TMP_END);
-        dc_fill(&s, &I.z);
+        dc_fill(&s, &I.z, I.bi, I.hi);
         struct dc_small before, after;
         dc_snapshot(&before, &s, I.bi, I.hi);
         struct isal_hufftables *arg = I.tables_null ? NULL : &user_tables;
